@@ -59,6 +59,7 @@ def check_key_pubkey(rep, prog):
     sc = Scenario(bind={'%s.is_public' % me: Const(False), sib: Const(None)}, inline=noinline)
     outs = Interp(prog, sc).run(g)
     built = False
+    colls = {}            # collection a loop ranges over -> (expanded) value it attaches per element
     for s in outs:
         tk = twin_key_stores(s)
         if not tk:
@@ -79,6 +80,10 @@ def check_key_pubkey(rep, prog):
                 attached.append(e[2])
                 cur = '(%s | %s)' % (cur, e[2])
         vals = sorted(set(expand_bound(s, v) for v in attached))
+        for v in attached:
+            for b in re.findall(r'\$[\d.]*\d', v):
+                if b in s.bound:
+                    colls[s.bound[b]] = (expand_bound(s, v), s.filters.get(b, '').replace(b, 'EV'))
         SUBKEY_TWINS = tuple(t.replace('%s', me) for t in (
             '%s.subkeys.items()[*]_1.pubkey', '%s.subkeys.values()[*].pubkey', '%s._children.items()[*]_1.pubkey', '%s._children.values()[*].pubkey',
             '%s.subkeys[%s.subkeys[*]].pubkey', '%s.subkeys[%s.subkeys.keys()[*]].pubkey', '%s._children[%s._children[*]].pubkey',
@@ -97,6 +102,7 @@ def check_key_pubkey(rep, prog):
                   'the object returned must be the twin that was just built', where=g.where, found=r)
     if not built:
         rep.violation('C07.2', 'PGPKey.pubkey', 'no construction arm', 'a private key with no twin yet does not build one', where=g.where)
+    _check_attach_conditions(rep, prog, g, me, sib, colls, twin_key_stores)
     # public keys return themselves
     for s in Interp(prog, Scenario(bind={'%s.is_public' % me: Const(True)}, inline=noinline)).run(g):
         rep.check(render(s.ret) == me, 'C07.2', 'PGPKey.pubkey', 'public key returns %s' % render(s.ret), 'a public key is its own public twin',
@@ -115,6 +121,50 @@ def check_key_pubkey(rep, prog):
     else:
         rep.ok('C07.2', 'PGPKey.pubkey', 'the twin is rebuilt on every access of a private key')
     check_or(rep, prog, ci)
+
+
+def _check_attach_conditions(rep, prog, g, me, sib, colls, twin_key_stores):
+    """Every subkey and every identity is attached unconditionally; a key-level signature exactly when it has no parent (the ones
+    that belong to an identity travel with it).  Decisions inside a summarised loop are not kept by the interpreter, so each
+    loop is run once for a single symbolic element and the truth table of its decisions is read."""
+    from sa.keyaction import assignments, consistent, _show
+    from sa.interp import ListV
+    for coll, (what, filt) in sorted(colls.items()):
+        is_sig = what.endswith('._signatures[*])') and 'copy.copy(' in what
+        kind = 'signature' if is_sig else ('identity' if '_uids' in what else 'subkey')
+        if filt:
+            # the iteration itself is filtered (for x in (y for y in C if f)): the filter is the attach condition
+            f = filt.strip()
+            while f.startswith('(') and f.endswith(')'):
+                f = f[1:-1].strip()
+            ok = is_sig and f in ('EV._parent is None', 'None is EV._parent', 'not EV.embedded', 'EV._parent == None')
+            rep.check(ok, 'C07.2', 'PGPKey.pubkey', 'every %s of %s is carried over (filter %s)' % (kind, coll, f),
+                      'the twin must carry the subkeys, identities and signatures of the private key (key-level signatures: exactly those without a parent)',
+                      where=g.where, expected='no filter' if not is_sig else 'only signatures without a parent', found=f)
+            continue
+        pair = coll.endswith('.items()')
+        elem = ListV([Sym('EK', nonnull=True), Sym('EV', nonnull=True)], 'tuple') if pair else Sym('EV', nonnull=True)
+        sc = Scenario(bind={'%s.is_public' % me: Const(False), sib: Const(None)}, unroll={coll: [elem]}, inline=noinline)
+        outs = [s for s in Interp(prog, sc).run(g) if s.raised is None and twin_key_stores(s)]
+        if not outs:
+            raise AnalysisError('PGPKey.pubkey: construction path lost when %s is a single element' % coll)
+        bad = None
+        for assign in assignments(outs):
+            for s in [x for x in outs if consistent(x, assign)]:
+                att = any(e[0] == 'ior' and re.search(r'\bE[KV]\b', e[2]) for e in s.events)
+                if is_sig:
+                    orphan = assign.get(('eq', frozenset(('EV._parent', 'None'))))
+                    emb = assign.get(('expr', 'EV.embedded'))
+                    want = orphan if orphan is not None else (None if emb is None else not emb)
+                    if want is None or att != want:
+                        bad = bad or (assign, att)
+                elif not att:
+                    bad = bad or (assign, att)
+        rep.check(bad is None, 'C07.2', 'PGPKey.pubkey', 'every %s of %s is carried over' % (kind, coll),
+                  'the twin must carry the subkeys, identities and signatures of the private key' if not is_sig else
+                  'the twin must carry the subkeys, identities and signatures of the private key (key-level signatures: exactly those without a parent)',
+                  where=g.where, expected='attached unconditionally' if not is_sig else 'attached iff the signature has no parent',
+                  found=None if bad is None else 'under [%s] the %s is %s' % (_show(bad[0]), kind, 'attached' if bad[1] else 'left out'))
 
 
 STATE = ('_children', '_uids', '_signatures')
